@@ -189,6 +189,26 @@ int main(int argc, char** argv)
 		for(int i = 0; i < m; i++)
 			for(int j = 0; j < n; j++)
 				same = same && bits(Mq[i][j]) == bits(In_Units(tb[i][j], u, true, digits));
+		// every overload with and without rounding (the flags are forwarded to the scalar overload)
+		{
+			auto lr = In_Units(scaled, u, true, digits);
+			auto tr = In_Units(tb, u, true, digits);
+			auto tn = In_Units(tb, us);
+			Vector Vr = In_Units(V, u, true, digits);
+			Matrix Mn = In_Units(M, u);
+			for(int j = 0; j < n; j++)
+			{
+				same = same && bits(lr[j]) == bits(In_Units(scaled[j], u, true, digits));
+				same = same && bits(Vr[j]) == bits(In_Units(scaled[j], u, true, digits));
+			}
+			for(int i = 0; i < m; i++)
+				for(int j = 0; j < n; j++)
+				{
+					same = same && bits(tr[i][j]) == bits(In_Units(tb[i][j], u, true, digits));
+					same = same && bits(tn[i][j]) == bits(In_Units(tb[i][j], us[j]));
+					same = same && bits(Mn[i][j]) == bits(In_Units(tb[i][j], u));
+				}
+		}
 		T.emit({{"e", "InUnits"}, {"q", quant(worst, 4 * EPS)}, {"same", same}, {"roundok", roundok}});
 	}
 	T.flush();
